@@ -64,7 +64,8 @@ type caseJ struct {
 	Path string `json:"path,omitempty"`
 	// cascade
 	W, R, S, B *setJ
-	Dir        string `json:"dir,omitempty"` // chdir here first (symlink farm)
+	Dir        string   `json:"dir,omitempty"`    // chdir here first (symlink farm)
+	Relink     []string `json:"relink,omitempty"` // [link, target]: re-point this symbolic link before the query
 	// ops
 	Ops []op `json:"ops,omitempty"`
 	// counter
@@ -122,6 +123,13 @@ func main() {
 			fs := c.Set.build()
 			res["in"] = fs.IsInSetSmart(c.Path)
 		case "cascade":
+			if len(c.Relink) == 2 {
+				os.Remove(c.Relink[0])
+				if err := os.Symlink(c.Relink[1], c.Relink[0]); err != nil {
+					res["err"] = err.Error()
+					break
+				}
+			}
 			if c.Dir != "" {
 				if err := os.Chdir(c.Dir); err != nil {
 					res["err"] = err.Error()
